@@ -715,6 +715,8 @@ t0n_exit:
         for n in prog.natives.values():
             f.write("\tX(%d, %s, \"%s\") \\\n" % (n.op, n.cname, n.name.replace("\\", "\\\\").replace('"', '\\"')))
         f.write("\n#define T0N_NUM_ADDR_REWRITES %d\n#define C05_DISPATCH t0n_%s_dispatch\n" % (nrew, key))
+        for n in prog.natives.values():
+            f.write("#define C05_OP_%s %d\n" % (sanitise(n.name), n.op))
     return d
 
 
@@ -724,6 +726,9 @@ HARN = os.path.join(ROOT, "harness")
 Effect = namedtuple("Effect", "op name delta need peak rdelta rneed rpeak co proved note codelta noco coerr coerr_nz")
 
 
+EFFECT_VERSION = "effects-v3 unwind34 default-checks"
+
+
 def _harness_hash():
     h = hashlib.sha1()
     for f in ("C05_native.c", "C05_pre.h", "C05_env.h", "C05_env_hs.h", "common.h", "strmodel.c"):
@@ -731,7 +736,7 @@ def _harness_hash():
         if os.path.exists(pth):
             h.update(open(pth, "rb").read())
     h.update(open(os.path.join(HERE, "t0n_vm.h"), "rb").read())
-    h.update(open(os.path.abspath(__file__), "rb").read())
+    h.update(EFFECT_VERSION.encode())
     try:
         h.update(subprocess.check_output(["cbmc", "--version"]))
     except Exception:
@@ -758,16 +763,6 @@ def goto_cc_native(prog, op, out, extra_defs=(), units=None):
            "-I" + HERE, "-I" + d, "-DVERIF_CBMC=1", "-DBEARSSL_ESP8266_VERIF", "-DC05_KEY_%s=1" % prog.key, "-DOP=%d" % op] + \
           repo_defs(prog.repo) + list(extra_defs) + ["-o", out] + srcs
     return sh(cmd, timeout=300)
-
-
-def ensure_pre(prog):
-    """t0n_<key>_pre.h: call-site preconditions (generated by gen_preconditions once effects are known)"""
-    pth = os.path.join(gen_dir(prog), "t0n_%s_pre.h" % prog.key)
-    if not os.path.exists(pth):
-        with open(pth, "w") as f:
-            f.write("/* placeholder: no call-site preconditions generated yet */\n"
-                    "static void c05_precond(T0N_CTXT *c, unsigned op) { (void)c; (void)op; }\n")
-    return pth
 
 
 def _noeff(op, name, note):
@@ -923,6 +918,51 @@ def literal_before(prog, waddr, k):
     return None
 
 
+def dup_spec_ok(prog):
+    """CBMC proof that the native named `dup` really duplicates the top of the data stack"""
+    n = prog.native_by_name("dup")
+    if n is None:
+        return False
+    src = open(extract_natives(prog)).read()
+    hk = hashlib.sha1((src + _harness_hash() + hh(prog.repo) + "dup").encode()).hexdigest()[:16]
+    cache = os.path.join(BUILD, "dupspec-%s-%s.json" % (prog.key, hk))
+    if os.path.exists(cache):
+        return json.load(open(cache))
+    wd = tempfile.mkdtemp(prefix="t0dup-", dir=BUILD)
+    try:
+        gb = os.path.join(wd, "dup.gb")
+        rc, o, e = goto_cc_native(prog, n.op, gb, ["-DC05_EFFECT=1", "-DC05_SPEC_DUP=1"])
+        ok = False
+        if rc == 0:
+            rc, o, e = sh(["cbmc", gb, "--json-ui", "--no-malloc-may-fail", "--unwind", "34", "--unwinding-assertions",
+                           "--drop-unused-functions", "--slice-formula"], timeout=300)
+            try:
+                for m in json.loads(o):
+                    if "result" in m:
+                        ok = any(r.get("description") == "SPEC dup" and r.get("status") == "SUCCESS" for r in m["result"])
+            except Exception:
+                ok = False
+        with open(cache, "w") as f:
+            json.dump(ok, f)
+        return ok
+    finally:
+        shutil.rmtree(wd, ignore_errors=True)
+
+
+def top_nonzero_before(prog, waddr, k):
+    """True if the bytecode guarantees a non-zero top of stack on entry to instruction k of word waddr:
+    a non-zero literal just before, or the fall-through of `dup ; jump-if-not` (dup proved by CBMC)"""
+    w = prog.words[waddr]
+    v = literal_before(prog, waddr, k)
+    if v is not None:
+        return v != 0
+    if k >= 2 and w.ins[k].ip not in w.targets() and w.ins[k - 1].kind == "jifnot" and w.ins[k - 1].ip not in w.targets():
+        p = w.ins[k - 2]
+        if p.kind == "nat" and prog.natives[p.arg].name == "dup" and dup_spec_ok(prog):
+            return True
+    return False
+
+
 def cli_effects(p, rest):
     effs = native_effects(p, force="--force" in rest)
     bad = 0
@@ -1019,8 +1059,7 @@ def stack_system(prog, effects=None, resume_after_fail=False):
                         if e.coerr:
                             terminal = True
                         elif e.coerr_nz:
-                            v = literal_before(prog, w.addr, n)
-                            terminal = v is not None and v != 0
+                            terminal = top_nonzero_before(prog, w.addr, n)
                     if not terminal:
                         L.append((nxt, e.codelta))
                 low, pk, rpk = -e.need, e.peak, e.rpeak
@@ -1145,6 +1184,50 @@ def stack_system(prog, effects=None, resume_after_fail=False):
                                  for a in prog.words if a in reach_words}
     else:
         res["conflicts"] = stack_conflicts(prog, effects, resume_after_fail, edges, can_return, reach)[:12]
+        # depth is path dependent: look for inductive interval bounds instead
+        # (Hi/Lo = upper/lower bound of the depth at each instruction; any solution bounds every run)
+        L2 = []
+        A2 = []
+        for a, w in prog.words.items():
+            if a not in reach_words or not w.ins:
+                continue
+            ed = edges(w, can_return)
+            for v in ("NH_%d" % a, "NL_%d" % a, "HH_%d" % a, "LL_%d" % a, "RR_%d" % a):
+                L2.append("(declare-const %s Int)" % v)
+            for n in sorted(reach[a]):
+                L2.append("(declare-const Hi_%d_%d Int)" % (a, w.ins[n].ip))
+                L2.append("(declare-const Lo_%d_%d Int)" % (a, w.ins[n].ip))
+            A2.append("(assert (>= Hi_%d_%d 0))" % (a, w.ins[0].ip))
+            A2.append("(assert (<= Lo_%d_%d 0))" % (a, w.ins[0].ip))
+            A2.append("(assert (>= RR_%d 0))" % a)
+            for n in sorted(reach[a]):
+                if ed[n] is None:
+                    continue
+                hi = "Hi_%d_%d" % (a, w.ins[n].ip)
+                lo = "Lo_%d_%d" % (a, w.ins[n].ip)
+                Ls, low, pk, rpk = ed[n]
+                for (j, eff) in Ls:
+                    eh = ("NH_%d" % eff[1]) if isinstance(eff, tuple) else ex(eff)
+                    el = ("NL_%d" % eff[1]) if isinstance(eff, tuple) else ex(eff)
+                    if j == "ret":
+                        A2.append("(assert (>= NH_%d %s))" % (a, hi))
+                        A2.append("(assert (<= NL_%d %s))" % (a, lo))
+                    elif j is not None:
+                        A2.append("(assert (>= Hi_%d_%d (+ %s %s)))" % (a, w.ins[j].ip, hi, eh))
+                        A2.append("(assert (<= Lo_%d_%d (+ %s %s)))" % (a, w.ins[j].ip, lo, el))
+                pkx = ("HH_%d" % pk[1]) if isinstance(pk, tuple) else ex(pk)
+                lox = ("LL_%d" % low[1]) if isinstance(low, tuple) else ex(low)
+                rx = ("(+ RR_%d %d)" % (rpk[1], rpk[2])) if isinstance(rpk, tuple) else ex(rpk)
+                A2.append("(assert (>= HH_%d (+ %s %s)))" % (a, hi, pkx))
+                A2.append("(assert (<= LL_%d (+ %s %s)))" % (a, lo, lox))
+                A2.append("(assert (>= RR_%d %s))" % (a, rx))
+        safe = []
+        for name, a in mains:
+            safe.append("(<= HH_%d %d)" % (a, prog.ndp))
+            safe.append("(>= LL_%d 0)" % a)
+            safe.append("(<= (+ RR_%d %d) %d)" % (a, prog.words[a].lnum + 1, prog.nrp))
+        o2 = _z3("\n".join(L2 + A2) + "\n(assert (and %s))\n(check-sat)\n" % " ".join(safe))
+        res["interval_bounds_exist"] = (o2.split() or ["error"])[0]
     for e in effects.values():
         if e.note and "not constant" in e.note and e.op in prog.used_natives():
             sites = []
@@ -1208,10 +1291,235 @@ def cli_stack(p, rest):
             r.get("max_return_depth"), p.ndp, p.nrp, r["z3_s"], r["smt_vars"], r["smt_asserts"]))
         for x in r["not_covered"][:10]:
             print("   not covered:", x)
-        for x in r.get("conflicts", [])[:10]:
+        for x in r.get("conflicts", [])[:4]:
             print("   conflict:", x)
+        if "interval_bounds_exist" in r:
+            print("   inductive interval bounds within the stacks exist:", r["interval_bounds_exist"])
         for x in r["value_dependent_sites"]:
             print("   value-dependent:", x)
+    return 0
+
+
+
+# ====================================================================== call-site preconditions
+# role of the stack operands of natives that take context offsets: name -> [(addr_pos, extent)]
+#   addr_pos: stack position (0 = top) of the context offset; extent: byte count (int) or ("pos", k)
+#   = stack position of the length operand.  Checked against the code by layer 2 itself: a wrong
+#   entry makes the T0_ADDR / region checks of that native fail.
+ADDR_OPERANDS = {
+    "set8": [(0, 1)], "set16": [(0, 2)], "set32": [(0, 4)],
+    "get8": [(0, 1)], "get16": [(0, 2)], "get32": [(0, 4)],
+    "read-blob-inner": [(1, ("pos", 0), "or0")],
+    "blobcopy": [(2, ("pos", 0)), (1, ("pos", 0))],
+    "eqblob": [(2, ("pos", 0)), (1, ("pos", 0))],
+    "memcpy": [(2, ("pos", 0)), (1, ("pos", 0))],
+    "memcmp": [(2, ("pos", 0)), (1, ("pos", 0))],
+    "bzero": [(1, ("pos", 0))],
+    "mkrand": [(1, ("pos", 0))],
+    "read-chunk-native": [(1, ("pos", 0))],
+    "write-blob-chunk": [(1, ("pos", 0))],
+    "strlen": [(0, 1)],
+    "copy-hash-CV": [(0, 64)],
+}
+
+
+def address_literals(prog):
+    """[(value, expr, Field, [words that push it])] for every literal of the bytecode written with offsetof()"""
+    out = {}
+    for a, w in prog.words.items():
+        for i in w.ins:
+            if i.kind == "const" and i.expr and "offsetof" in i.expr:
+                out.setdefault(i.arg, [i.expr, []])[1].append(a)
+    res = []
+    for v, (ex, ws) in sorted(out.items()):
+        res.append((v, ex, field_of(prog, v), ws))
+    return res
+
+
+def length_literals(prog):
+    """literals written as a symbolic size expression (BUFSIZE / sizeof), with the words that push them"""
+    out = {}
+    for a, w in prog.words.items():
+        for i in w.ins:
+            if i.kind == "const" and i.expr and "offsetof" not in i.expr and re.search(r"BUFSIZE|sizeof|_LEN\b|_SIZE\b|MAX_", i.expr):
+                out.setdefault(i.arg, [i.expr, []])[1].append(a)
+    return [(v, ex, ws) for v, (ex, ws) in sorted(out.items())]
+
+
+def _pushers(prog, defining_words):
+    """words that push a literal = the defining word itself or callers of the constant word"""
+    s = set(defining_words)
+    for a, w in prog.words.items():
+        for i in w.ins:
+            if i.kind == "call" and i.arg in defining_words and i.arg in prog.const_words:
+                s.add(a)
+    return s
+
+
+def capacity_audit(prog, window=12):
+    """pairs (address literal A of an array field, size literal L) that the bytecode uses together:
+    L is pushed within `window` instructions of A in the same word (constant words inlined) and A is
+    the nearest array address to that L.  Verdict: does [A, A+L) fit the field -- the literal-level
+    form of 'length checks before copying into fixed areas'"""
+    alit = {v: (ex, f) for (v, ex, f, ws) in address_literals(prog) if f is not None and f.kind in ("A", "W", "U") and f.size > 8}
+    llit = {v: ex for (v, ex, ws) in length_literals(prog)}
+    pairs = {}
+    for a, w in prog.words.items():
+        if a in prog.const_words:
+            continue
+        pushes = []
+        for k, i in enumerate(w.ins):
+            v = None
+            if i.kind == "const":
+                v = i.arg
+            elif i.kind == "call" and i.arg in prog.const_words:
+                v = prog.const_words[i.arg][0]
+            if v is not None:
+                pushes.append((k, v))
+        for (k, v) in pushes:
+            if v not in llit:
+                continue
+            best = None
+            for (k2, v2) in pushes:
+                if v2 in alit and abs(k2 - k) <= window and (best is None or abs(k2 - k) < best[0]):
+                    best = (abs(k2 - k), v2)
+            if best:
+                pairs.setdefault((best[1], v), []).append(a)
+    res = []
+    for (av, lv), ws in sorted(pairs.items()):
+        ex, f = alit[av]
+        cap = f.off + f.size - av
+        res.append({"addr": av, "addr_expr": ex, "field": f.path, "field_size": f.size, "len": lv, "len_expr": llit[lv],
+                    "words": sorted(set(ws)), "capacity": cap, "fits": lv <= cap})
+    return res
+
+
+def regions(prog):
+    """regions the bytecode can address: every address literal; extent = the size literal the
+    bytecode pairs with it (derived) or the whole field (stated)"""
+    aud = {r["addr"]: r for r in capacity_audit(prog)}
+    out = []
+    for (v, ex, f, ws) in address_literals(prog):
+        if f is None:
+            out.append({"addr": v, "expr": ex, "field": None, "len": 0, "how": "literal does not point into a field"})
+            continue
+        if v in aud:
+            r = aud[v]
+            out.append({"addr": v, "expr": ex, "field": f.path, "len": r["len"], "how": "derived: bytecode pairs it with literal %s (words %s)" % (r["len_expr"], r["words"])})
+        else:
+            out.append({"addr": v, "expr": ex, "field": f.path, "len": f.off + f.size - v, "how": "stated: rest of the field"})
+    return out
+
+
+def literal_top_sets(prog):
+    """{opcode: sorted literal values} for natives whose EVERY call site is directly preceded by a literal"""
+    out = {}
+    for op in prog.natives:
+        sites = prog.call_sites(op)
+        body = prog.natives[op].body
+        if not sites or not ("T0_POP" in body or "T0_PEEK" in body):
+            continue
+        vals = set()
+        ok = True
+        for (w, k) in sites:
+            v = literal_before(prog, w, k)
+            if v is None:
+                ok = False
+                break
+            vals.add(v & 0xFFFFFFFF)
+        if ok:
+            out[op] = sorted(vals)
+    return out
+
+
+def gen_preconditions(prog, effects=None):
+    """writes t0n_<key>_pre.h into the gen dir; returns a description (for the evidence).
+    With effects: also the per-native need/peak (C05_NEED / C05_PEAK for -DOP)"""
+    d = gen_dir(prog)
+    regs = regions(prog)
+    lits = literal_top_sets(prog)
+    desc = {"regions": regs, "literal_operands": {}, "address_natives": {}}
+    o = ["/* GENERATED by t0tool.gen_preconditions from the bytecode of %s */\n" % prog.rel]
+    o.append("static int\nc05_in_region(uint32_t addr, uint32_t len)\n{\n")
+    for r in regs:
+        if r["field"] is None:
+            continue
+        o.append("\tif (addr >= %du && len <= %du && addr - %du <= %du - len) return 1;   /* %s (%s): %s */\n" % (
+            r["addr"], r["len"], r["addr"], r["len"], r["field"], r["expr"], r["how"]))
+    o.append("\treturn 0;\n}\n\n")
+    for r in regs:
+        if r["field"] is not None:
+            o.append("#define C05_REGION_LEN_%s %du\n" % (re.sub(r"\W", "_", r["field"]), r["len"]))
+    if effects is not None:
+        o.append("/* need / peak of each native, proved by CBMC (t0tool.native_effects) */\n")
+        first = True
+        for n in prog.natives.values():
+            e = effects.get(n.op)
+            need, peak = (e.need, e.peak) if (e is not None and e.need is not None) else (0, 0)
+            m = re.search(r"per-literal: (\{.*\})", (e.note or "") if e else "")
+            if m:
+                tab = json.loads(m.group(1))
+                need = max([need] + [v[1] for v in tab.values()])
+                peak = max([peak] + [v[2] for v in tab.values()])
+            o.append("#%s OP == %d\n#define C05_NEED %d\n#define C05_PEAK %d\n" % ("if" if first else "elif", n.op, need, peak))
+            first = False
+        o.append("#endif\n")
+    o.append("#ifndef C05_NEED\n#define C05_NEED 0\n#define C05_PEAK 0\n#endif\n")
+    o.append("#define C05_TOP(k)  (T0N_STK(c)->dp_stack[t0n_dpi - 1 - (k)])\n")
+    o.append("static void\nc05_precond(T0N_CTXT *c, unsigned op)\n{\n\tswitch (op) {\n")
+    for n in prog.natives.values():
+        conds = []
+        depth = 0
+        if n.name in ADDR_OPERANDS:
+            al = []
+            for ent in ADDR_OPERANDS[n.name]:
+                pos, ext = ent[0], ent[1]
+                e = "C05_TOP(%d)" % ext[1] if isinstance(ext, tuple) else "%du" % ext
+                depth = max(depth, pos + 1, (ext[1] + 1) if isinstance(ext, tuple) else 0)
+                c = "c05_in_region(C05_TOP(%d), %s)" % (pos, e)
+                if len(ent) > 2 and ent[2] == "or0":
+                    c = "(C05_TOP(%d) == 0 || %s)" % (pos, c)
+                conds.append(c)
+                al.append({"operand": pos, "extent": ext if not isinstance(ext, tuple) else "operand %d" % ext[1]})
+            desc["address_natives"][n.name] = al
+        elif n.op in lits and len(lits[n.op]) <= 64:
+            depth = 1
+            conds.append("(" + " || ".join("C05_TOP(0) == %du" % v for v in lits[n.op]) + ")")
+            desc["literal_operands"][n.name] = lits[n.op]
+        if conds:
+            o.append("\tcase %d: /* %s */\n\t\tASSUME(t0n_dpi >= %d);\n" % (n.op, n.name, depth))
+            for c in conds:
+                o.append("\t\tASSUME(%s);\n" % c)
+            o.append("\t\tbreak;\n")
+    o.append("\tdefault:\n\t\tbreak;\n\t}\n\t(void)c;\n}\n")
+    with open(os.path.join(d, "t0n_%s_pre.h" % prog.key), "w") as f:
+        f.write("".join(o))
+    return desc
+
+
+def ensure_pre(prog):
+    pth = os.path.join(gen_dir(prog), "t0n_%s_pre.h" % prog.key)
+    if not os.path.exists(pth) or os.environ.get("T0TOOL_REGEN"):
+        gen_preconditions(prog)
+    return pth
+
+
+def cli_sites(p, rest):
+    print(p.key, "capacity audit:")
+    for r in capacity_audit(p):
+        print("   %s" % r)
+    print(p.key, "regions:")
+    for r in regions(p):
+        print("   %s" % r)
+    lt = literal_top_sets(p)
+    for op, v in lt.items():
+        print("   literal top operand at every site of %-24s: %s" % (p.natives[op].name, v[:20]))
+    for name in ADDR_OPERANDS:
+        n = p.native_by_name(name)
+        if n:
+            sites = p.call_sites(n.op)
+            nl = sum(1 for (w, k) in sites if literal_before(p, w, k) is not None)
+            print("   address native %-20s sites=%d with literal top=%d" % (name, len(sites), nl))
     return 0
 
 
